@@ -16,6 +16,7 @@ import PdfVerif.Lemmas.SimpleFontBuild
 import PdfVerif.Lemmas.Agl
 import PdfVerif.Lemmas.SimpleFontInst
 import PdfVerif.Lemmas.Type1Roundtrip
+import PdfVerif.Lemmas.AglExact
 
 namespace PdfVerif.Props.C06
 open PdfVerif PdfVerif.SimpleFont PdfVerif.SimpleFont.Spec PdfVerif.Gen.FontCode
@@ -360,6 +361,110 @@ theorem C06_width_precedence_pdfminer (fd : FontDict) (code : Int)
     glyphAdv (build Inst.glyphs Inst.encDB Inst.metrics fd) code = specWidth Inst.tables fd code :=
   C06_width_precedence Inst.tables tables_ok fd code hj
 
+/-! ## Every name, every font dictionary, every code: no judged domain -/
+
+/-- **`name2unicode` on EVERY glyph name** is the Adobe Glyph List algorithm with exactly two deviations:
+(D1) hexadecimal digits after `uni` / `u` may be lower case, (D2) a component without a value makes the whole
+name undefined.  (`agl_grammar` is the restriction to names where neither deviation shows.) -/
+theorem name2unicode_exact (gl : GlyphList) (hgl : GlyphListOK gl) (nm : Option Name) :
+    name2unicode gl nm = pdfminerAgl gl nm :=
+  name2unicode_eq_pdfminerAgl hgl nm
+
+/-- On the judged names the exact algorithm IS the AGL algorithm. -/
+theorem pdfminerAgl_judged (gl : GlyphList) (hgl : GlyphListOK gl) (nm : Option Name)
+    (hj : judgedName gl nm = true) : pdfminerAgl gl nm = aglText gl nm := by
+  rw [← name2unicode_exact gl hgl nm, agl_grammar gl hgl nm hj]
+
+/-- The two deviations, on the exact algorithm (the lower-case rule and the unknown-component rule, stated). -/
+theorem pdfminerAgl_deviations :
+    pdfminerAgl [] (some ['u', 'n', 'i', '0', '0', 'e', '9']) = some [0xE9] ∧
+    pdfminerAgl [] (some ['u', '1', 'f', '6', '0', '0']) = some [0x1F600] ∧
+    pdfminerAgl [(['A'], [65])] (some ['A', '_', 'f', 'o', 'o']) = none ∧
+    pdfminerAgl [(['A'], [65])] (some ['A', '_', '_', 'A']) = none ∧
+    pdfminerAgl [(['A'], [65])] (some ['A', '_', 'u', 'n', 'i', '0', '0', '4', 'a', '.', 'x', '_', 'y']) = some [65, 0x4A] := by
+  decide
+
+theorem name2unicode_exact_pdfminer (nm : Option Name) :
+    name2unicode Inst.glyphs nm = pdfminerAgl Inst.glyphs nm :=
+  name2unicode_exact Inst.glyphs Inst.glyphs_ok nm
+
+/-- The encoding of a font as Unicode values, for EVERY Differences array (no hypothesis on the names). -/
+theorem enc_text_all (T : Tables) (hT : TablesOK T) (name : String) (diff : List DiffTok) (code : Int) :
+    tlookup (getEncoding T.gl (dbOf T) name diff) code = encTextP T name diff code := by
+  rw [enc_overlay]
+  unfold encTextP
+  cases hl : lastAssigned (assignments 0 diff) code with
+  | some nm => exact name2unicode_exact T.gl hT.glyphs nm
+  | none =>
+    simp only [dbOf, get_ofRows, tlookup_buildTable T.gl _ T.rows hT.rowsResolve [] code]
+    cases hb : baseName T.rows (encColumn T.cols T.dflt name) code with
+    | none => simp [tlookup_nil, pdfminerAgl]
+    | some n => exact name2unicode_exact T.gl hT.glyphs (some n)
+
+theorem encoding_text_all (T : Tables) (hT : TablesOK T) (fd : FontDict) (code : Int) :
+    tlookup (modelFont T fd).cid2unicode code = encodingTextP T fd code := by
+  rw [build_cid2unicode]
+  unfold encodingTextP
+  cases hb : usesBuiltin T fd with
+  | some ff =>
+    simp only
+    unfold builtinEncoding builtinName
+    rw [tlookup_putsEncoding]
+    cases hl : lastAssigned ff.puts code with
+    | some nm => exact name2unicode_exact T.gl hT.glyphs nm
+    | none => simp [tlookup_nil]
+  | none =>
+    simp only
+    cases he : fd.enc with
+    | absent => simp only [specEncoding]; exact enc_text_all T hT _ [] code
+    | named n => simp only [specEncoding]; exact enc_text_all T hT _ [] code
+    | dict base diff => simp only [specEncoding]; exact enc_text_all T hT _ diff code
+
+/-- **Text precedence, Unicode level - FULL statement**: for every font dictionary of the modelled shape and every
+code, with no judged-domain hypothesis: ToUnicode value (exact rule) > value of the glyph name the encoding (base
++ Differences, or built-in) assigns (exact algorithm) > undefined. -/
+theorem C06_unicode_precedence_all (T : Tables) (hT : TablesOK T) (fd : FontDict) (code : Int) :
+    toUnichr (modelFont T fd) code = specUnicodeP T fd code := by
+  unfold toUnichr specUnicodeP
+  rw [build_umap]
+  cases htu : fd.toUnicode with
+  | none =>
+    simp only [Option.map_none]
+    exact encoding_text_all T hT fd code
+  | some es =>
+    simp only [Option.map_some]
+    rw [tounicode_exact es code]
+    cases ht : tuTextExact (tuDefs es) code with
+    | some t => rfl
+    | none => exact encoding_text_all T hT fd code
+
+/-- **Text precedence - FULL statement** (every font dictionary, every code). -/
+theorem C06_text_precedence_all (T : Tables) (hT : TablesOK T) (fd : FontDict) (code : Int) :
+    glyphText (modelFont T fd) code = specTextP T fd code := by
+  unfold glyphText specTextP
+  simp only [C06_unicode_precedence_all T hT fd code]
+  cases specUnicodeP T fd code <;> rfl
+
+/-- **Width precedence - FULL statement** (every font dictionary, every code). -/
+theorem C06_width_precedence_all (T : Tables) (hT : TablesOK T) (fd : FontDict) (code : Int) :
+    glyphAdv (modelFont T fd) code = specWidthP T fd code := by
+  rw [width_of_unicode, C06_unicode_precedence_all T hT fd code]
+  rfl
+
+/-- On the judged cells the full specification is the property's specification (AGL, ToUnicode exact rule). -/
+theorem specP_judged (T : Tables) (hT : TablesOK T) (fd : FontDict) (code : Int)
+    (hj : judgedCodeX T fd code = true) :
+    specTextP T fd code = specTextX T fd code ∧ specWidthP T fd code = specWidthX T fd code := by
+  rw [← C06_text_precedence_all T hT, ← C06_width_precedence_all T hT,
+    C06_text_precedence_exact T hT fd code hj, C06_width_precedence_exact T hT fd code hj]
+  exact ⟨rfl, rfl⟩
+
+/-- The full statements for pdfminer's own tables: no hypothesis at all. -/
+theorem C06_precedence_all_pdfminer (fd : FontDict) (code : Int) :
+    glyphText (build Inst.glyphs Inst.encDB Inst.metrics fd) code = specTextP Inst.tables fd code ∧
+    glyphAdv (build Inst.glyphs Inst.encDB Inst.metrics fd) code = specWidthP Inst.tables fd code :=
+  ⟨C06_text_precedence_all Inst.tables tables_ok fd code, C06_width_precedence_all Inst.tables tables_ok fd code⟩
+
 /-! ## Glue regenerated from the source: font class dispatch, constants -/
 
 /-- `get_font` (regenerated if/elif chain): Type1, MMType1, TrueType and a missing or unknown Subtype are built
@@ -681,6 +786,17 @@ example : specTextX T0 fdNb 0x43 = [0xA0] := by decide +kernel      -- space, X,
 example : specWidthX T0 fdNb 0x41 = 278 / 1000 := by decide +kernel -- Helvetica's metric of the space
 example : glyphText (modelFont T0 fdNb) 0x41 = [0x20] := by
   rw [C06_text_precedence_exact T0 example_tables_ok fdNb 0x41 (by decide +kernel)]; decide +kernel
+
+-- the full statements on a font whose Differences use a lower-case uni name and a partially unknown name
+def fdLo : FontDict :=
+  { fd0 with toUnicode := none,
+             enc := .dict (some "WinAnsiEncoding")
+               [.num 65, .name (some ['u', 'n', 'i', '0', '0', 'e', '9']), .name (some ['A', '_', 'f', 'o', 'o'])] }
+example : judgedCodeX T0 fdLo 65 = false ∧ judgedCodeX T0 fdLo 66 = false := by decide +kernel
+example : specTextP T0 fdLo 65 = [0xE9] := by decide +kernel                 -- (D1) lower-case digits accepted
+example : specTextP T0 fdLo 66 = specPlaceholder 66 := by decide +kernel     -- (D2) unknown component: undefined
+example : glyphText (modelFont T0 fdLo) 65 = [0xE9] := by
+  rw [C06_text_precedence_all T0 example_tables_ok fdLo 65]; decide +kernel
 
 -- the instances for pdfminer's own tables are not vacuous either (the first glyph-list entry keeps the kernel
 -- lookup short; names deeper in the 4 281-entry list cost minutes of String -> List Char conversion)
